@@ -6,6 +6,8 @@ import (
 
 	"github.com/tanema/gween"
 	"github.com/tanema/gween/ease"
+	"google.golang.org/grpc/codes"
+	"google.golang.org/grpc/status"
 	"google.golang.org/protobuf/proto"
 	"google.golang.org/protobuf/types/known/timestamppb"
 
@@ -48,7 +50,10 @@ func (s *MemoryDevice) GetBrightness(_ context.Context, req *traits.GetBrightnes
 func (s *MemoryDevice) UpdateBrightness(ctx context.Context, request *traits.UpdateBrightnessRequest) (*traits.Brightness, error) {
 	if request.GetBrightness().GetPreset() != nil {
 		res, err := s.brightness.Set(request.GetBrightness())
-		return res.(*traits.Brightness), err
+		if err != nil {
+			return nil, err // res is nil: asserting its type first would panic
+		}
+		return res.(*traits.Brightness), nil
 	}
 
 	if err := resource.ValidateTweenOnUpdate("brightness", request.GetBrightness().GetBrightnessTween()); err != nil {
@@ -95,7 +100,7 @@ func (s *MemoryDevice) UpdateBrightness(ctx context.Context, request *traits.Upd
 						resource.WithResetPaths("target_level_percent", "brightness_tween"),
 						resource.WithExpectedValue(lastObj),
 					)
-					if err != nil && err != resource.ExpectedValuePreconditionFailed {
+					if err != nil && err != resource.ExpectedValuePreconditionFailed && status.Code(err) != codes.Aborted {
 						panic(err) // programmer error
 					}
 					return
@@ -109,8 +114,8 @@ func (s *MemoryDevice) UpdateBrightness(ctx context.Context, request *traits.Upd
 					resource.WithExpectedValue(lastObj),
 				)
 				switch {
-				case err == resource.ExpectedValuePreconditionFailed:
-					// somebody else changed the value, tweening is done
+				case err == resource.ExpectedValuePreconditionFailed, status.Code(err) == codes.Aborted:
+					// somebody else changed the value (Aborted: at this very moment), tweening is done
 					return
 				case err != nil:
 					panic(err) // programmer error
